@@ -8,7 +8,8 @@ import geom_common as GC
 from common import prove, driver
 
 P = "Matid.Props.C10."
-THEOREMS = [P + t for t in ("ceilSqrt_spec", "copies_bound", "extend_complete_axis", "bin_neighbour", "query_exact", "pairEntry_sound", "pairEntry_is_min", "pairEntry_none_iff")]
+THEOREMS = [P + t for t in ("ceilSqrt_spec", "copies_bound", "extend_complete_axis", "bin_neighbour", "query_exact", "pairEntry_sound", "pairEntry_is_min", "pairEntry_none_iff",
+                            "tensor_entry_exact_finite", "tensor_entry_exact_infinite")]
 TRUSTED = ["Lean 4 kernel", "axioms: propext, Classical.choice, Quot.sound at most (audited per run)",
            "hand-written model MatidModel/Geom.lean of geometry.cpp / celllist.cpp, tied by the correspondence below (C++ rebuilt from /repo through /verif/shim)",
            "exact arithmetic on the rational inputs: rounding inside ceil(cutoff/h), sqrt and bin indices is not modelled"]
